@@ -414,7 +414,10 @@ def gen_cells_c17(rng, n, with_backend=False):
         if with_backend:
             for _ in range(50):
                 b = dict(rng.choice(PERSISTENT))
-                if gen.backend_accepts(b, kk, km):
+                # an ignored argument leaves klepto's NULL marker object inside a raw key: like the
+                # sentinel, its repr is not Python source, so source-text files cannot hold such keys
+                km_eff = dict(km, sentinel=True) if (cell.get('ignore') and kk == 'raw') else km
+                if gen.backend_accepts(b, kk, km_eff):
                     break
             else:
                 continue
